@@ -11,8 +11,8 @@
    363-367  append, 425-429 insert: same guards, then list.append / insert     py_insert
    392-394  extend: type test, data.extend(iterable.data)                      py_extend
    458      pop: cls(data.pop(i))                                              py_pop
-   190-202  arghandler, list of same-class objects: arg[0] (IndexError on []),  construct
-            data = [x.A for x in arg]
+   190-206  arghandler, list: [] -> data = [] (fix 1105ad0); list of same-class   construct
+            objects: data = [x.A for x in arg]
    210-212  copy constructor: data = copy(arg.data)
    100-102  Empty, 134-136 Alloc
    UserList __delitem__/reverse/clear/__len__ act on .data directly;           py_delitem py_delslice py_reverse py_clear
@@ -61,8 +61,8 @@ Fixpoint collect (l : list Z) (ks : list Z) : res (list Z) :=
               | Ok v => match collect l t with Ok vs => Ok (v :: vs) | Raise e => Raise e end
               end
   end.
-(* cls(list of arrays): arghandler evaluates arg[0] *)
-Definition construct (vs : list Z) : res out := match vs with [] => Raise IndexError | _ => Ok (Obj vs) end.
+(* cls(list of arrays) / cls(list of same-class objects): arghandler; an empty list gives an empty object (fix 1105ad0) *)
+Definition construct (vs : list Z) : res out := Ok (Obj vs).
 
 Definition m_getslice (C : cls) (st : list Z) (a b c : option Z) : res out :=
   if own_slice C then
@@ -124,12 +124,17 @@ Definition m_step (C : cls) (st : list Z) (o : op) : list Z * res out :=
   | Pop i => match py_pop st i with Ok (v, st') => (st', Ok (Obj [v])) | Raise e => (st, Raise e) end
   | Reverse => (py_reverse st, Ok NoneV)
   | Clear => (py_clear st, Ok NoneV)
-  | CtorIter => match m_iter st with
-                | [] => (st, Raise IndexError)
-                | objs => (map obj_A objs, Ok NoneV)
+  | CtorIter => match construct (map obj_A (m_iter st)) with      (* data = [x.A for x in arg] *)
+                | Ok (Obj vs) => (vs, Ok NoneV)
+                | Ok _ => (st, Ok NoneV)
+                | Raise e => (st, Raise e)
                 end
   | CtorCopy => (st, Ok NoneV)
-  | CtorFrom ts => match ts with [] => (st, Raise IndexError) | _ => (ts, Ok NoneV) end
+  | CtorFrom ts => match construct ts with
+                   | Ok (Obj vs) => (vs, Ok NoneV)
+                   | Ok _ => (st, Ok NoneV)
+                   | Raise e => (st, Raise e)
+                   end
   | Alloc n => (py_repeat 0 n, Ok NoneV)
   | Empty => ([], Ok NoneV)
   end.
@@ -178,8 +183,6 @@ Definition operand_nonempty (v : operand) : bool := match v with Same [] => fals
 Definition op_ok (C : cls) (st : list Z) (o : op) : bool :=
   match o with
   | SetItem _ v | Append v | Insert _ v => operand_nonempty v
-  | CtorIter => match st with [] => false | _ => true end
-  | CtorFrom ts => match ts with [] => false | _ => true end
   | _ => true
   end.
 
@@ -295,8 +298,7 @@ Proof.
   - rewrite single_operand_agree by assumption. reflexivity.
   - rewrite single_operand_agree by assumption. reflexivity.
   - rewrite single_operand_agree by assumption. reflexivity.
-  - rewrite m_iter_spec. destruct st as [|x t]; [discriminate|]. cbn [map]. rewrite map_obj_A_single. reflexivity.
-  - destruct ts; [discriminate | reflexivity].
+  - rewrite m_iter_spec, map_obj_A_single. reflexivity.
 Qed.
 
 Lemma run_refines : forall C ops st, run_ok C st ops = true -> run (m_step C) st ops = run s_step st ops.
@@ -318,8 +320,6 @@ Proof.
   - destruct v; [discriminate | reflexivity].
   - destruct (m_single_operand v); [discriminate | reflexivity].
   - destruct (py_pop st i) as [[v st']|]; [discriminate | reflexivity].
-  - destruct (m_iter st); [reflexivity | discriminate].
-  - destruct ts; [reflexivity | discriminate].
 Qed.
 
 (* wrong-class and multi-valued operands are rejected *)
@@ -343,12 +343,11 @@ Definition enc_out (r : res out) : list Z :=
 Definition enc_step (x : list Z * res out) : list Z := enc_out (snd x) ++ zlen (fst x) :: fst x.
 
 (* root cause of a disagreement between model and specification:
-   2 construction from an empty list, 4 empty object accepted as a value, 9 none expected
-   (1 slice index arithmetic, 3 extend by a single value, and the empty slice of the SpatialVector classes were
-   repaired in /repo and are no longer produced) *)
+   4 empty object accepted as a value, 9 none expected
+   (1 slice index arithmetic, 2 construction from an empty list, 3 extend by a single value were repaired in /repo and
+   are no longer produced) *)
 Definition classify (C : cls) (st : list Z) (o : op) : Z :=
   match o with
-  | CtorIter | CtorFrom _ => 2
   | SetItem _ _ | Append _ | Insert _ _ => 4
   | _ => 9
   end.
